@@ -84,6 +84,31 @@ static std::string safe_type_str(type_t t)
     } catch (std::exception& e) { return std::string("<type.str throws ") + demangle(typeid(e).name()) + ">"; }
 }
 
+// the class of an expression type as TypeChecker's predicates see it (names of coq/theories/Typing.v)
+static const char* type_class(type_t t)
+{
+    if (t.unknown()) return "Unknown";
+    if (t.is_integer()) return "CInt";
+    if (t.is(BOOL)) return "CBool";
+    if (t.is_double()) return "CDouble";
+    if (t.is_clock()) return "CClock";
+    if (t.is(DIFF)) return "CDiff";
+    if (t.is(RATE)) return "CRate";
+    if (t.is(COST)) return "CCost";
+    if (t.is(INVARIANT)) return "CInvariant";
+    if (t.is(INVARIANT_WR)) return "CInvariantWR";
+    if (t.is(GUARD)) return "CGuard";
+    if (t.is(CONSTRAINT)) return "CConstraint";
+    if (t.is(FORMULA)) return "CFormula";
+    if (t.is_record()) return "CRecord";
+    if (t.is_array()) return "CArray";
+    if (t.is_scalar()) return "CScalar";
+    if (t.is_channel()) return "CChannel";
+    if (t.is_string()) return "CString";
+    if (t.is_void()) return "CVoid";
+    return "Other";
+}
+
 // ---- frames: a path naming the scope a symbol was declared in ------------------------------------
 struct Scopes
 {
@@ -515,7 +540,7 @@ static void run_case(const std::string& id, bool newxta, std::vector<Cmd>& cmds)
                     TypeChecker tc{*doc};
                     bool r = tc.checkExpression(e);
                     size_t e2 = doc->get_errors().size();
-                    printf("typecheck ret=%d errors=%zu type=%s\n", r, e2 - e1, esc(safe_type_str(e.get_type())).c_str());
+                    printf("typecheck ret=%d errors=%zu cls=%s type=%s\n", r, e2 - e1, type_class(e.get_type()), esc(safe_type_str(e.get_type())).c_str());
                     if (e2 > e1) { std::vector<UTAP::error_t> v(doc->get_errors().begin() + e1, doc->get_errors().end()); dump_errs("error", v); }
                 }
                 if (c.op == "RT" && !e.empty() && e1 == e0) {
